@@ -7,8 +7,18 @@
 //	conn <ttl s> <max entries> <allow hex,…|-> <deny hex,…|->   new proxy + client connection
 //	q <hex text>                            simple-protocol query
 //
-// Output per `q`: `fwd <hex of the text the upstream received> reads=<topic hex,…|-> listed=<0|1>`
-// or `deny`.
+// Output per `q`: `fwd <hex of the text the upstream received> reads=<topic hex,…|-> listed=<0|1>
+// plan=<topic hex,…|-> desc=<topic hex,…|-> err=<0|1>` or `deny`.
+//
+//	reads   topics handed to the decoder (SELECT) or to the resolver's Partitions (SHOW PARTITIONS)
+//	listed  the resolver's Topics was called (SHOW TOPICS, catalog tables)
+//	plan    topics named by the plan rows the client received (EXPLAIN: `Scan: t`, `Join: t TYPE u`)
+//	desc    topics whose configured schema the client received (DESCRIBE: every topic of the universe
+//	        has one schema column whose path is `$.verif_<hex topic>`)
+//	err     the client received an ErrorResponse for the forwarded text (the upstream's)
+//
+// Everything in reads/listed/plan/desc is produced by the REAL server.handleConnection/handleQuery
+// for the text the REAL proxy forwarded.
 package main
 
 import (
@@ -153,19 +163,65 @@ func (s *session) close() {
 	_ = s.client.Close()
 }
 
-func readUntilReady(f *pgproto3.Frontend) (sawError bool, err error) {
+const descPrefix = "$.verif_"
+
+// answer is what the client saw for one query.
+type answer struct {
+	sawError bool
+	plan     []string // topics named in EXPLAIN plan rows
+	desc     []string // topics whose schema column was sent (DESCRIBE)
+}
+
+func readUntilReady(f *pgproto3.Frontend) (answer, error) {
+	var a answer
 	for {
 		msg, err := f.Receive()
 		if err != nil {
-			return sawError, err
+			return a, err
 		}
-		switch msg.(type) {
+		switch m := msg.(type) {
 		case *pgproto3.ErrorResponse:
-			sawError = true
+			a.sawError = true
+		case *pgproto3.DataRow:
+			if len(m.Values) == 1 {
+				line := strings.TrimSpace(string(m.Values[0]))
+				if strings.HasPrefix(line, "Scan: ") {
+					a.plan = append(a.plan, strings.TrimPrefix(line, "Scan: "))
+				} else if strings.HasPrefix(line, "Join: ") {
+					fs := strings.Split(strings.TrimPrefix(line, "Join: "), " ")
+					if len(fs) >= 3 {
+						a.plan = append(a.plan, fs[0], fs[len(fs)-1])
+					}
+				}
+			}
+			if len(m.Values) == 3 && strings.HasPrefix(string(m.Values[2]), descPrefix) {
+				if b, err := hex.DecodeString(strings.TrimPrefix(string(m.Values[2]), descPrefix)); err == nil {
+					a.desc = append(a.desc, string(b))
+				}
+			}
 		case *pgproto3.ReadyForQuery:
-			return sawError, nil
+			return a, nil
 		}
 	}
+}
+
+func hexList(xs []string) string {
+	if len(xs) == 0 {
+		return "-"
+	}
+	seen := map[string]bool{}
+	var out []string
+	for _, x := range xs {
+		if !seen[x] {
+			seen[x] = true
+			out = append(out, x)
+		}
+	}
+	sort.Strings(out)
+	for i, x := range out {
+		out[i] = hx(x)
+	}
+	return strings.Join(out, ",")
 }
 
 func decodeList(s string) ([]string, error) {
@@ -188,7 +244,13 @@ func decodeList(s string) ([]string, error) {
 }
 
 func newSession(rec *recorder, ttl, max int, allow, deny []string) (*session, error) {
-	upstream := server.VerifNewServer(config.Config{Query: config.QueryConfig{DefaultLimit: 100, MaxUnbounded: 10000}}, rec, rec, rec)
+	cfg := config.Config{Query: config.QueryConfig{DefaultLimit: 100, MaxUnbounded: 10000}}
+	for _, t := range rec.topics {
+		// the schema of a topic names the topic: DESCRIBE <t> becomes observable at the client
+		cfg.Metadata.Topics = append(cfg.Metadata.Topics, config.TopicConfig{Name: t, Partitions: []int32{0},
+			Schema: config.SchemaConfig{Columns: []config.SchemaColumn{{Name: "verif", Type: "int", Path: descPrefix + hex.EncodeToString([]byte(t))}}}})
+	}
+	upstream := server.VerifNewServer(cfg, rec, rec, rec)
 	px := proxy.New(config.ProxyConfig{Listen: ":0", Upstreams: []string{"upstream"}, CacheTTLSeconds: ttl, CacheMaxEntries: max,
 		ACL: config.ProxyACLConfig{Allow: allow, Deny: deny}}, log.New(io.Discard, "", 0))
 	ctx, cancel := context.WithCancel(context.Background())
@@ -274,7 +336,8 @@ func main() {
 				fmt.Fprintln(w, "send-failed")
 				continue
 			}
-			if _, err := readUntilReady(cur.frontend); err != nil {
+			ans, err := readUntilReady(cur.frontend)
+			if err != nil {
 				fmt.Fprintln(w, "connection-lost")
 				continue
 			}
@@ -300,7 +363,11 @@ func main() {
 			if listed {
 				l = "1"
 			}
-			fmt.Fprintf(w, "fwd %s reads=%s listed=%s\n", strings.Join(parts, "+"), rl, l)
+			e := "0"
+			if ans.sawError {
+				e = "1"
+			}
+			fmt.Fprintf(w, "fwd %s reads=%s listed=%s plan=%s desc=%s err=%s\n", strings.Join(parts, "+"), rl, l, hexList(ans.plan), hexList(ans.desc), e)
 		default:
 			fmt.Fprintln(w, "bad-op")
 		}
